@@ -101,6 +101,30 @@ def gen(rng, idx, tier):
         features, rules = S.gsub_alternates(rng, desc, languagesystems=[("DFLT", "dflt"), ("latn", "dflt")])
         lib = {"public.openTypeCategories": {g["name"]: ("mark" if desc[g["name"]]["mark"] else "base")
                                              for g in glyphs if g["name"] != ".notdef"}}
+        if rng.random() < 0.45:
+            # mark classes grouped by graph colouring (non-default option): marks that carry
+            # several mark anchors make classes conflict, further classes give the colouring a
+            # choice
+            marks = [g for g in glyphs if desc[g["name"]]["mark"]]
+            cl = rng.sample(["top", "bottom", "ogonek"], 3)
+            if len(marks) >= 2:
+                # one mark in two classes (they conflict), another mark in a third class only
+                def mk(c):
+                    return {"name": "_" + c, "x": rng.randint(-50, 50), "y": rng.randint(0, 600)}
+                marks[0]["anchors"] = [mk(cl[0]), mk(cl[1])]
+                marks[1]["anchors"] = [mk(cl[2])]
+                for g in marks[2:]:
+                    g["anchors"] = [mk(rng.choice(cl))]
+                for g in glyphs:
+                    if not desc[g["name"]]["mark"] and g["name"] not in (".notdef", "space") \
+                            and not any(a["name"] in cl for a in g["anchors"]):
+                        if desc[g["name"]]["kind"] == "letter":
+                            g["anchors"] += [{"name": c, "x": 250, "y": 500 + 30 * i}
+                                             for i, c in enumerate(cl)]
+            lib["com.github.googlei18n.ufo2ft.featureWriters"] = [
+                {"class": "CursFeatureWriter"}, {"class": "KernFeatureWriter"},
+                {"class": "MarkFeatureWriter", "options": {"groupMarkClasses": True}},
+                {"class": "GdefFeatureWriter"}]
         ufo = {"glyphs": glyphs, "kerning": kerning, "groups": groups, "features": features,
                "lib": lib, "info": {"unitsPerEm": 1000, "familyName": "T", "styleName": "R"}}
         kind = "layout"
